@@ -137,3 +137,31 @@ mod test {
         (0..16).for_each(|i| assert_eq!(s.estimate(i), 0));
     }
 }
+// ---------------------------------------------------------------------------------------------
+// verification hooks (feature `verif-hooks`)
+#[cfg(feature = "verif-hooks")]
+#[doc(hidden)]
+impl CountMinSketch {
+    pub(crate) fn verif_from_raw(rows: [Vec<u8>; 4], mask: u64, seeds: [u64; 4]) -> Self {
+        let [r0, r1, r2, r3] = rows;
+        Self {
+            rows: [
+                CountMinRow::verif_from_vec(r0),
+                CountMinRow::verif_from_vec(r1),
+                CountMinRow::verif_from_vec(r2),
+                CountMinRow::verif_from_vec(r3),
+            ],
+            seeds,
+            mask,
+        }
+    }
+    pub(crate) fn verif_row(&self, i: usize) -> &[u8] {
+        self.rows[i].verif_bytes()
+    }
+    pub(crate) fn verif_mask(&self) -> u64 {
+        self.mask
+    }
+    pub(crate) fn verif_seeds(&self) -> [u64; 4] {
+        self.seeds
+    }
+}
